@@ -46,6 +46,17 @@ def pinned_c03():
         ("C03-set-of-collection-with-double", definition([obj("Grid", P, [field("rows", set_(lst(prim("DOUBLE")))), field("maybe", set_(opt(prim("DOUBLE"))))])])),
         ("C03-type-named-option-with-double", definition([obj("Option", P, [field("x", prim("DOUBLE"))]), alias("Some", P + ".other", prim("DOUBLE"))])),
         ("C03-safe-binary-body", definition([alias("Blob", P, prim("BINARY"), "SAFE")], [service("BlobService", P, [endpoint("upload", "POST", "/blob/up", [arg("data", ref("Blob", P), "body")])])])),
+        # the request-size tag on every flavour of body (witness family of the fixed finding C06-optional-body-ignores-size-limit)
+        ("C03-size-limit-on-every-body-flavour", definition(
+            [alias("MaybeText", P, opt(S)), alias("Texts", P, lst(S)), alias("MaybeTexts", P, opt(ref("Texts", P))), obj("Doc", P, [field("a", S)])],
+            [service("LimitService", P, [
+                endpoint("req", "POST", "/lim/req", [arg("body", S, "body")], tags=["server-limit-request-size: 1kb"]),
+                endpoint("opt", "POST", "/lim/opt", [arg("body", opt(ref("Doc", P)), "body")], tags=["server-limit-request-size: 1 KiB"]),
+                endpoint("aliasOpt", "POST", "/lim/aliasOpt", [arg("body", ref("MaybeText", P), "body")], tags=["server-limit-request-size: 1024"]),
+                endpoint("aliasOptAlias", "POST", "/lim/aliasOptAlias", [arg("body", ref("MaybeTexts", P), "body")], tags=["server-limit-request-size: 2 mb"]),
+                endpoint("aliasList", "POST", "/lim/aliasList", [arg("body", ref("Texts", P), "body")], tags=["server-limit-request-size: 10b"]),
+                endpoint("bin", "POST", "/lim/bin", [arg("body", prim("BINARY"), "body")], tags=["server-limit-request-size: 1kb"]),
+            ])])),
         ("C03-type-named-option-without-double", definition([obj("Option", P, [field("x", opt(S))]), union("Some", P, [field("a", S)]), enum("None", P, ["A"])])),
         # witnesses of fixed findings stay in the workload as ordinary judged cases
         ("C03-type-named-box-recursive", definition([obj("Leaf", P, [field("a", S)]), union("Box", P + ".other", [field("x", prim("INTEGER")), field("y", opt(ref("Leaf", P)))]),
@@ -1741,8 +1752,13 @@ def responses_stage(prop, tier, seed, replay):
                         ct, ctcls = ("application/json" if binary else "application/octet-stream"), "the-other-conjure-type"
                     elif k2 < 0.93:
                         ct, ctcls = r.choice(["text/plain", "application/x-jackson-smile", "application/cbor", "text/html", "garbage", ""]), "unrelated"
-                    else:
+                    elif k2 < 0.96:
                         ct, ctcls = requested + r.choice(["; charset=utf-8", ";q=1", " "]) if r.random() < 0.7 else requested.upper(), "spelled-differently(observed-only)"
+                    elif k2 < 0.985:
+                        # two Content-Type header lines that contradict each other: the response's Content-Type is not "the requested one"
+                        ct, ctcls = [r.choice(["text/html", "application/octet-stream" if not binary else "application/json", "text/plain"]), requested], "duplicate:other-then-requested"
+                    else:
+                        ct, ctcls = [requested, r.choice(["text/html", "text/plain"])], "duplicate:requested-then-other(observed-only)"
                     want, wanted = None, None      # want: None = error expected; wanted: the value (for comparison)
                     if status == 204:
                         data, bcls = b"", "empty-204"
@@ -1780,7 +1796,7 @@ def responses_stage(prop, tier, seed, replay):
                         expect = "error"           # an empty body is not a document of a type that has no empty value
                     else:
                         expect = "value" if valid else "error"
-                    headers = [("content-type", ct)] if ct is not None else []
+                    headers = [("content-type", x) for x in (ct if isinstance(ct, list) else [ct])] if ct is not None else []
                     if r.random() < 0.3:
                         headers.append(("x-other", "1"))
                     for flavour in ("sync", "async"):
